@@ -1,2 +1,5 @@
+import QeepProps.C01
 import QeepProps.C03
 import QeepProps.C06
+import QeepProps.C08
+import QeepProps.C10
